@@ -17,10 +17,11 @@ CFG = {
     "harness": "c01",
     "runs": [{"harness": "c01", "extra": "c02"}],
     "theorems": [("C02.Props", [
-        "C02_rb", "C02_avl", "C02_bt", "C02_rb_inv_b_ok", "C02_avl_inv_b_ok", "C02_bt_inv_b_ok", "C02_parent_ok", "C02_parent_ok_bt",
+        "C02_comparator_shapes_laws", "C02_rb", "C02_avl", "C02_bt", "C02_rb_inv_b_ok", "C02_avl_inv_b_ok", "C02_bt_inv_b_ok", "C02_parent_ok", "C02_parent_ok_bt",
         "C02_rb_height_log", "C02_avl_height_log", "C02_bt_height_log"])],
     "trusted": [
-        "comparator laws are a premise (CmpLaws), proved for the int comparator used in the correspondence run",
+        "comparator laws are a premise (CmpLaws), proved for every comparator shape used in the correspondence run (C02_comparator_shapes_laws): "
+        "IntComparator, a-b, b-a, (a-b)*7, (b-a)*1000003, a-b clamped to [-3,3], over spread key universes (|keys| < 2^40)",
         "parent pointers and in-place mutation have no counterpart in the functional model: the clause 'every child's parent link points to "
         "its actual parent' is a predicate on dumps, proved for the model's layout and evaluated on the implementation's dump",
         "verif-tagged read-only accessors VerifColor / VerifBalance (add-only files in the repository)",
